@@ -80,6 +80,15 @@ def _ig_choices(r, rec, exhaustive=False):
     return [r.choice(pool)]
 
 
+def _reorder(spec):
+    """the same value with the key order of every dict reversed (equal dicts, different insertion order)"""
+    if isinstance(spec, list):
+        if spec and spec[0] == "dict":
+            return ["dict", [[k, _reorder(v)] for k, v in reversed(spec[1])]]
+        return [_reorder(x) for x in spec]
+    return spec
+
+
 def _cmp(a, b, ig, rel, varied=None):
     c = {"kind": "cmp", "a": a, "b": b, "ig": ig, "rel": rel}
     if varied is not None:
@@ -117,6 +126,12 @@ def gen_cases(rng, tier):
     ip4 = ["rec", ["t/ip", [["net.ipaddress", "ip"]]], [["ip", "1.2.3.4"]], M]
     ip6 = ["rec", ["t/ip", [["net.ipaddress", "ip"]]], [["ip", "::102:304"]], M]
     cases.append(_cmp(ip4, ip6, [], "vary", 0))
+    dl = ["rec", ["t/dl", [["dictlist", "d"], ["string", "s"]]],
+          [["list", [["dict", [[V.S("a"), V.I(1)], [V.S("b"), V.S("x")], [V.S("c"), V.I(3)]]], ["dict", [[V.S("k"), V.S("v")], [V.S("j"), V.I(0)]]]]],
+           V.S("k")], M]
+    cases.append(_cmp(dl, _reorder(dl), [], "copy"))          # equal dicts built in another key order
+    cases.append(_cmp(dl, _reorder(dl), ["s"], "copy"))
+    cases.append(_cmp(["grouped", "g/d", [dl, cmd]], ["grouped", "g/d", [_reorder(dl), cmd]], [], "grouped-copy"))
     nanr = ["rec", ["t/f", [["float", "f"]]], [["float", "7ff8000000000000"]], M]
     cases.append(_cmp(nanr, nanr, [], "copy"))
     # --- random pairs
@@ -128,6 +143,8 @@ def gen_cases(rng, tier):
         if w < 3:
             for ig in _ig_choices(r, a, exhaustive):
                 cases.append(_cmp(a, a, ig, "copy"))
+            if any(t == "dictlist" for t, _ in a[1][1]) and _reorder(a) != a:
+                cases.append(_cmp(a, _reorder(a), [], "copy"))
         elif w < 7:
             b, i = _vary(r, a)
             for ig in _ig_choices(r, a, exhaustive):
@@ -286,6 +303,12 @@ def run_real(case):
                 "dict_get": _try(lambda: {a: 1}.get(b) == 1) if case["rel"] != "nonrecord" else None,
                 "global_after": sorted(B.IGNORE_FIELDS_FOR_COMPARISON),
             }
+            from flow.record import GroupedRecord
+            if isinstance(a, GroupedRecord) and isinstance(b, GroupedRecord):
+                # the members, compared one by one as plain records under the same configuration
+                obs["group_names_equal"] = a.name == b.name
+                obs["group_sizes"] = [len(a.records), len(b.records)]
+                obs["members_eq"] = [_try(lambda x=x, y=y: x == y) for x, y in zip(a.records, b.records)]
             B.set_ignored_fields_for_comparison([])
             if case["rel"] != "nonrecord":
                 cl = _Classes()
@@ -432,6 +455,14 @@ def oracle(case, obs):
     if rel in ("copy", "grouped-copy"):
         if not obs["eq_ab"] and not _has_nan(obs["obs_a"]):
             return "an independently rebuilt copy is not equal"
+    if "members_eq" in obs and not _has_nan(obs["obs_a"]) and not _has_nan(obs["obs_b"]):
+        same = (obs["group_names_equal"] and obs["group_sizes"][0] == obs["group_sizes"][1]
+                and all(m is True for m in obs["members_eq"]))
+        if same and not obs["eq_ab"]:
+            return ("grouped records with the same name whose members are pairwise equal (ignored fields not counted) "
+                    "are not equal")
+        if not same and obs["eq_ab"] and all(isinstance(m, bool) for m in obs["members_eq"]):
+            return "grouped records that differ in name, size or a member compare equal"
     if rel == "other" and obs["eq_ab"]:
         return "records of different descriptors compare equal"
     if rel == "collide" and obs["eq_ab"]:
